@@ -1,0 +1,102 @@
+//go:build verif
+// +build verif
+
+package decimal
+
+import "math/big"
+
+// Exports for external verification harnesses (build tag verif): the vector
+// kernels (selected implementation and portable twin), the unexported dec
+// routines, the tuning thresholds and raw access to a Decimal's fields.
+
+// VerifKernels pairs each selected kernel with its portable Go counterpart.
+var VerifKernels = struct {
+	Mul10WW, Mul10WWg         func(x, y Word) (z1, z0 Word)
+	Div10WW, Div10WWg         func(x1, x0, y Word) (q, r Word)
+	Div10W, Div10Wg           func(n1, n0 Word) (q, r Word)
+	Add10VV, Add10VVg         func(z, x, y []Word) Word
+	Sub10VV, Sub10VVg         func(z, x, y []Word) Word
+	Add10VW, Add10VWg         func(z, x []Word, y Word) Word
+	Sub10VW, Sub10VWg         func(z, x []Word, y Word) Word
+	Shl10VU, Shl10VUg         func(z, x []Word, s uint) Word
+	Shr10VU, Shr10VUg         func(z, x []Word, s uint) Word
+	MulAdd10VWW, MulAdd10VWWg func(z, x []Word, y, r Word) Word
+	AddMul10VVW, AddMul10VVWg func(z, x []Word, y Word) Word
+	Div10VWW, Div10VWWg       func(z, x []Word, y, xn Word) Word
+	DivWVW, DivWVWg           func(z []Word, xn Word, x []Word, y Word) Word
+}{
+	mul10WW, mul10WW_g,
+	div10WW, div10WW_g,
+	div10W, div10W_g,
+	add10VV, add10VV_g,
+	sub10VV, sub10VV_g,
+	add10VW, add10VW_g,
+	sub10VW, sub10VW_g,
+	shl10VU, shl10VU_g,
+	shr10VU, shr10VU_g,
+	mulAdd10VWW, mulAdd10VWW_g,
+	addMul10VVW, addMul10VVW_g,
+	div10VWW, div10VWW_g,
+	divWVW, divWVW_g,
+}
+
+// VerifMul returns x*y computed by dec.mul into z's storage (z may be nil or alias x / y).
+func VerifMul(z, x, y []Word) []Word { return dec(z).mul(dec(x), dec(y)) }
+
+// VerifSqr returns x*x computed by dec.sqr.
+func VerifSqr(z, x []Word) []Word { return dec(z).sqr(dec(x)) }
+
+// VerifDiv returns quotient and remainder of u/v computed by dec.div (v normalized, non-empty).
+func VerifDiv(z, z2, u, v []Word) (q, r []Word) {
+	qq, rr := dec(z).div(dec(z2), dec(u), dec(v))
+	return qq, rr
+}
+
+// VerifDivW returns quotient and remainder of x/y for a single word y.
+func VerifDivW(z, x []Word, y Word) ([]Word, Word) {
+	q, r := dec(z).divW(dec(x), y)
+	return q, r
+}
+
+func VerifAdd(z, x, y []Word) []Word      { return dec(z).add(dec(x), dec(y)) }
+func VerifSub(z, x, y []Word) []Word      { return dec(z).sub(dec(x), dec(y)) }
+func VerifShl(z, x []Word, s uint) []Word { return dec(z).shl(dec(x), s) }
+func VerifShr(z, x []Word, s uint) []Word { return dec(z).shr(dec(x), s) }
+
+// VerifSetNat converts binary words to decimal words (len(z) must be large enough), VerifDecToNat the reverse.
+func VerifSetNat(z []Word, x []big.Word) []Word { return dec(z).setNat(x) }
+func VerifDecToNat(x []Word) []big.Word         { return decToNat(nil, dec(x)) }
+
+// VerifSetThresholds sets the multiplication tuning thresholds and returns the
+// previous values. Not safe for concurrent use with any other operation.
+func VerifSetThresholds(karatsuba, basicSqr, karatsubaSqr int) (k, bs, ks int) {
+	k, bs, ks = decKaratsubaThreshold, decBasicSqrThreshold, decKaratsubaSqrThreshold
+	decKaratsubaThreshold, decBasicSqrThreshold, decKaratsubaSqrThreshold = karatsuba, basicSqr, karatsubaSqr
+	return
+}
+
+// VerifDivRecursiveThreshold is the (constant) divisor length from which division recurses.
+const VerifDivRecursiveThreshold = divRecursiveThreshold
+
+// VerifRaw exposes every field of x; the mantissa is returned with its full capacity.
+type VerifRaw struct {
+	Mant []Word // x.mant[:cap]
+	Len  int    // len(x.mant)
+	Exp  int32
+	Prec uint32
+	Mode RoundingMode
+	Acc  Accuracy
+	Form byte // 0 zero, 1 finite, 2 inf
+	Neg  bool
+}
+
+func VerifGetRaw(x *Decimal) VerifRaw {
+	return VerifRaw{Mant: x.mant[:cap(x.mant)], Len: len(x.mant), Exp: x.exp, Prec: x.prec, Mode: x.mode, Acc: x.acc, Form: byte(x.form), Neg: x.neg}
+}
+
+// VerifSetRaw overwrites every field of z (harnesses use it to build receivers
+// with a chosen stale buffer; the fields are not validated).
+func VerifSetRaw(z *Decimal, r VerifRaw) {
+	z.mant = dec(r.Mant[:r.Len])
+	z.exp, z.prec, z.mode, z.acc, z.form, z.neg = r.Exp, r.Prec, r.Mode, r.Acc, form(r.Form), r.Neg
+}
